@@ -13,8 +13,12 @@ class ExecMonitor(object):
     command count once), maintains the execute stack, and emits exec-enter/exit/raise events.
     """
 
-    def __init__(self, log, on_enter=None, on_exit=None, on_raise=None, name_of=None):
+    def __init__(self, log, on_enter=None, on_exit=None, on_raise=None, name_of=None, nesting_cap=None,
+                 on_runaway=None):
         self.log = log
+        self.nesting_cap = nesting_cap    # bounded progress: deeper nesting of execute ends the run (deterministically)
+        self.on_runaway = on_runaway
+        self.runaway = False
         self.on_enter = on_enter
         self.on_exit = on_exit
         self.on_raise = on_raise
@@ -69,6 +73,13 @@ class ExecMonitor(object):
                     mon.max_stack = len(mon.stack)
                 mon.log.emit("exec-enter", cmd=key, n=mon.counts[key], depth=len(mon.stack))
             try:
+                if outer and mon.nesting_cap is not None and len(mon.stack) > mon.nesting_cap:
+                    mon.runaway = True
+                    mon.log.emit("runaway", cmd=key, depth=len(mon.stack))
+                    if mon.on_runaway:
+                        mon.on_runaway(key, len(mon.stack))
+                    from .core import SimAbort
+                    raise SimAbort()
                 if outer and mon.on_enter:
                     mon.on_enter(inst, key)    # may raise an injected fault: it then comes out of execute()
                 res = fn(inst, *args, **kwargs)
